@@ -34,12 +34,16 @@ def rule_partition(ctx, repo):
     reps = [-2.0, -1.0, -0.5, 0.0, 0.5, 1.0, 2.0]
     bad = []
     # eigenvalues are complex: the classification must depend on the real part only (imaginary part 0 or not)
+    funcs = {"np.real": lambda z: z.real, "np.imag": lambda z: z.imag, "np.asarray": lambda z, *a: z, "np.array": lambda z, *a: z,
+             "np.abs": abs, "abs": abs, "np.absolute": abs}
     for x, im in [(x_, i_) for x_ in reps for i_ in (0.0, 3.0)]:
-        env = {"self.config.tol": 1.0, "self.mu.real": x, "self.mu.imag": im, "self.mu": complex(x, im)}
-        for a in alias:
-            env[a] = x
+        env = {"self.config.tol": 1.0, "self.mu": complex(x, im)}
         try:
-            hits = [k for k, c in preds.items() if Interp(env, {"np.real": lambda z: z.real, "np.imag": lambda z: z.imag}).ev(c)]
+            # straight-line local definitions (mu_real = self.mu.real, tol = self.config.tol, mu = np.asarray(self.mu), ...)
+            for st in f.fn.body:
+                if isinstance(st, ast.Assign) and len(st.targets) == 1 and isinstance(st.targets[0], ast.Name):
+                    env[st.targets[0].id] = Interp(env, funcs).ev(st.value)
+            hits = [k for k, c in preds.items() if Interp(env, funcs).ev(c)]
         except Unsupported as e:
             ctx.undecided("C08.partition", "EIG._store_stats", "front-end: %s" % e, f.W())
             return
@@ -261,6 +265,41 @@ def rule_scaling(ctx, repo):
                   "reordering does not place zero-time-constant states last: %s" % t, r.W())
     else:
         ctx.undecided("C08.reorder", "EIG._reorder/permutation", "unrecognised reordering idiom", r.W())
+    # dataflow: the tail slots that receive the leading zero-T states must have been filtered against zstate_idx (a slot that is
+    # itself a zero-T state is not free).  Holds for any idiom (loop, vectorised): every store `perm[A] = B` into the index array of the
+    # permutation has a side whose definition passes an exclusion test against zstate_idx.
+    def excl(e):
+        for x in ast.walk(e):
+            if isinstance(x, ast.Compare) and any(isinstance(o, (ast.In, ast.NotIn)) for o in x.ops) and \
+                    any((dotted(c) or "").endswith("zstate_idx") for c in x.comparators):
+                return True
+            if isinstance(x, ast.Call) and dotted(x.func) in ("np.isin", "np.in1d", "np.setdiff1d") and \
+                    any((dotted(a) or "").endswith("zstate_idx") for a in x.args):
+                return True
+        return False
+    filtered = set()
+    for w in ast.walk(r.fn):
+        if isinstance(w, ast.While) and excl(w.test):
+            for x in ast.walk(w.test):
+                if isinstance(x, ast.Name):
+                    filtered.add(x.id)
+    changed = True
+    while changed:
+        changed = False
+        for st in walk_noscope(r.fn):
+            if isinstance(st, ast.Assign) and len(st.targets) == 1 and isinstance(st.targets[0], ast.Name) and st.targets[0].id not in filtered:
+                if excl(st.value) or any(isinstance(x, ast.Name) and x.id in filtered for x in ast.walk(st.value)):
+                    filtered.add(st.targets[0].id)
+                    changed = True
+    stores = [st for st in walk_noscope(r.fn) if isinstance(st, ast.Assign) and isinstance(st.targets[0], ast.Subscript)
+              and isinstance(st.targets[0].value, ast.Name) and st.targets[0].value.id in ("cols", "rows", "perm", "order", "idx")]
+    unf = [st for st in stores if not any(isinstance(x, ast.Name) and x.id in filtered for x in ast.walk(st))]
+    if stores:
+        ctx.check(not unf, "C08.reorder", "EIG._reorder/targets-free", "%d permutation stores, each involves a slot filtered against zstate_idx" % len(stores),
+                  "`%s`: neither side was tested against zstate_idx -- a trailing slot that is itself a zero-time-constant state can be chosen as "
+                  "swap target (a zero-T state stays in the differential block)" % (src(unf[0]) if unf else ""), r.W(unf[0]) if unf else r.W())
+    elif not concat:
+        ctx.undecided("C08.reorder", "EIG._reorder/targets-free", "permutation index stores not recognised", r.W())
     # partition sizes
     ok = all(Q.has(p, r.fn) for p in ("$M[:self.nz_counts, :self.nz_counts]", "$M[:self.nz_counts, self.nz_counts:]",
                                       "$M[self.nz_counts:, :self.nz_counts]", "$M[self.nz_counts:, self.nz_counts:]"))
@@ -433,6 +472,14 @@ def rule_sweep(ctx, repo):
     ctx.check(ok, "C08.sweep", "EIG.sweep/parameter-write", "swept values are written through Model.set/alter (or Tf is refreshed) before calc_As",
               "sweep writes the parameter array directly (%s) and never refreshes dae.Tf: sweeping the time constant of a differential "
               "equation leaves T^-1 in the state matrix at its old value" % [src(d) for d in direct][:1], f.W(direct[0]) if direct else f.W())
+    if via_set:
+        from rules import c11
+        ms, gates = c11.tconst_gates(repo)
+        tf = [g_ for g_ in gates if g_[0] == "dae.Tf"]
+        bad = [g_ for g_ in tf if g_[2]]
+        ctx.check(bool(tf) and not bad, "C08.sweep", "Model.set/dae.Tf", "the setter used by sweep writes dae.Tf (read by calc_As) unconditionally",
+                  "Model.set %s: a swept time constant does not reach T^-1 of the state matrix" % (
+                      "gates the dae.Tf write by `%s`" % src(bad[0][2][0].test) if bad else "no longer writes dae.Tf"), ms.W(bad[0][1]) if bad else ms.W())
     ok, wit = f.before(f.calls("TDS.itm_step"), cas) if cas else (False, "")
     ctx.check(ok, "C08.sweep", "EIG.sweep/relinearise", "Jacobians re-evaluated (itm_step) before each calc_As",
               "state matrix rebuilt from stale Jacobians during a sweep " + wit, f.W())
@@ -444,7 +491,7 @@ def run(ctx):
     ctx.rule("C08.formula", "symbolic execution of _reduce in a non-commutative algebra: result == diag(1/T')(fx - fy gy^-1 gx); "
              "argument order; step order", 4)
     ctx.rule("C08.scaling", "typestate 'T-scaled': blocks of self.As may only be re-reduced with unit time constants", 1)
-    ctx.rule("C08.reorder", "reordering permutation idiom: visits leading nz_counts positions, targets used once, symmetric; "
+    ctx.rule("C08.reorder", "swap targets filtered against zstate_idx (dataflow, any idiom); reordering permutation idiom: visits leading nz_counts positions, targets used once, symmetric; "
              "2x2 partition at nz_counts", 3)
     ctx.rule("C08.axes", "axis-label inference (state/mode) through eig, solve, .T, *, @, subscripts: no index or element-wise "
              "product mixes axes; returned orientation matches the report", 5)
